@@ -7,7 +7,9 @@ B1: the shipped protocol order and waptop are read from $VERIF_REPO/conf/pygophe
 B2: every case TLC enumerated (state dump) is concretised (gamma: class characters -> representative
     bytes, header kinds -> header lines) and pushed through the REAL ProtocolMultiplexer.getProtocol
     (shipped list, every protocol alone, every other list) resp. the REAL BaseServer.wrap_socket on a
-    socketpair with a recording socket and a recording stand-in TLS context.
+    socketpair with a recording socket and a recording stand-in TLS context; and every case also goes, with the
+    shipped list, through the REAL connection handler (World.request = GopherRequestHandler.handle, which reads
+    the request line itself) - long lines (family L) additionally with every class alone.
 B3: what was observed is written as traces and judged by TLC against spec/trace/TraceC02.tla.
 This file contains gamma, the drivers and alpha only - no property logic."""
 from __future__ import annotations
@@ -62,6 +64,7 @@ HDR_REPS = {
     "NC": [b"no colon here\r\n", b"HTTP/1.0 junk\r\n", b"x\n"],
     "BL": [b"\r\n", b"\n", b" \t\r\n"],
 }
+FILLER = [b"k", b"j", b"Z"]          # PAD "@": a run of `pad` filler letters (letters no token or class uses)
 NREPS = 3
 HSEED = 0          # set from chk.seed (and from the replay file)
 
@@ -71,13 +74,19 @@ def _pick(n, *key):
     return zlib.crc32(repr(key).encode("utf-8", "surrogateescape")) % n
 
 
-def concretise_line(line: str, rep: int) -> bytes:
-    return b"".join(CLASS_REPS[c][rep % len(CLASS_REPS[c])] if c in CLASS_REPS else c.encode("ascii") for c in line)
+def concretise_line(line: str, rep: int, pad: int = 0) -> bytes:
+    return b"".join(FILLER[rep % len(FILLER)] * pad if c == "@" else
+                    CLASS_REPS[c][rep % len(CLASS_REPS[c])] if c in CLASS_REPS else c.encode("ascii") for c in line)
 
 
-def abstract_line(data: bytes) -> str:
-    """alpha for the input (round-trip guard of gamma): decoded request -> model string."""
+def abstract_line(data: bytes):
+    """alpha for the input (round-trip guard of gamma): decoded request -> (model string, length of the PAD run)."""
     s = data.decode(errors="surrogateescape")
+    pad = 0
+    m = re.search("k+|j+|Z+", s)
+    if m:
+        pad = m.end() - m.start()
+        s = s[:m.start()] + "@" + s[m.end():]
     out = []
     for ch in s:
         o = ord(ch)
@@ -93,7 +102,7 @@ def abstract_line(data: bytes) -> str:
             out.append("0")
         else:
             out.append(ch)
-    return "".join(out)
+    return "".join(out), pad
 
 
 def concretise_hdrs(case, rep: int):
@@ -101,7 +110,7 @@ def concretise_hdrs(case, rep: int):
     out, ids = [], []
     hdrs = case["hdrs"]
     for pos, k in enumerate(hdrs):
-        key = (HSEED, case["line"], case["tls"], tuple(hdrs), pos, rep)
+        key = (HSEED, case["line"], case["tls"], tuple(hdrs), pos, rep) + ((case["pad"],) if case.get("pad") else ())
         if k in ACCEPT_VALUES:
             vals = ACCEPT_VALUES[k]
             i = _pick(len(vals), "v", *key)
@@ -154,6 +163,11 @@ TOK_BASE = ["GET", "HEAD", "HTTP/", "gemini:", "/", "x", "0", " ", "\t", "+", "!
 FAMB_LINES = dict(M={"GET", "HEAD", "get", "x"}, S={" ", "\t"}, P={"/wap", "/wap/x", "/wapx", "/wap?x", "/x", "x/wap", ""},
                   V={"HTTP/1.0", "http/1.0", "xHTTP/", "0"})
 KINDS = {"AW", "AG", "AO", "XP", "XU", "NC", "BL"}
+# family L: templates whose claim is decided by the END of the line; "@" = PAD run inside the selector / path
+LONG_LINES = ["GET /@ HTTP/1.0", "HEAD /x/@ HTTP/1.0", "GET /wap/@ HTTP/1.0", "GET /@ xHTTP/", "GET /@\tHTTP/1.0",
+              "@\t+", "/@\t$", "@\t!", "@\tx\t+", "@\tx", "@\t", "@", "x /@ 0", "x /@ x", "gemini://x/@"]
+PADS_QUICK = [1000, 1100, 4000, 4200, 5000, 5300, 65000, 66000, 200000]      # straddling 1 KiB, 4 KiB, 5 KiB, 64 KiB, beyond
+PADS_THOROUGH = PADS_QUICK + [1, 1021, 1022, 1023, 1024, 1025, 4090, 4096, 5110, 5120, 8192, 65530, 65536, 131072, 1000000]
 
 
 def other_lists(shipped, tier):
@@ -193,7 +207,8 @@ def configs(tier, shipped):
             famb=[dict(big, T={"\r\n", "\n"}, HK={"AW", "XP"}, HN=2),
                   dict(M={"GET", "x"}, S={" "}, P={"/wap", "/wapx", "/x", ""}, V={"HTTP/1.0", "0"}, T={"\r\n"}, HK=KINDS, HN=3)],
             csel={"", "x"}, cfields={"", "+", "!", "$", "+x", "!x", "x", " ", "$x", "x+"}, cn=3,
-            terms_c={"\r\n", ""}, hdrs_c=[[]])
+            terms_c={"\r\n", ""}, hdrs_c=[[]],
+            long=LONG_LINES, pads=PADS_QUICK, terms_l={"\r\n"}, hdrs_l=[[], ["AW", "XP"]])
         return {"main": main}
     main = dict(
         lists=[list(shipped)] + other_lists(shipped, tier),
@@ -202,12 +217,15 @@ def configs(tier, shipped):
               dict(M={"GET", "HEAD", "x"}, S={" "}, P={"/wap", "/wapx", "/wap?x", "/x", ""}, V={"HTTP/1.0", "0"}, T={"\r\n", "\n"},
                    HK=KINDS - {"NC", "XU"}, HN=4)],
         csel={"", "x", "/x"}, cfields={"", "+", "!", "$", "+x", "!x", "x", " ", "$x", "x+", "_", "^"}, cn=3,
-        terms_c={"\r\n", "\n", ""}, hdrs_c=[[], ["AW", "XP"]])
+        terms_c={"\r\n", "\n", ""}, hdrs_c=[[], ["AW", "XP"]],
+        long=LONG_LINES + ["GET /@?x HTTP/1.0", "@ x 0", "_@\t+", "GET /@ HTTP/1.0 "], pads=PADS_THOROUGH, terms_l={"\r\n", "\n", ""},
+        hdrs_l=[[], ["AW", "XP"], ["AO", "XP"]])
     orders = dict(
         lists=[list(shipped)] + subset_orders(shipped),
         tokens=TOK_BASE, na=2, terms_a={"\r\n"}, hdrs_a=[[]],
         famb=[dict(big, T={"\r\n"}, HK={"AW", "XP", "BL"}, HN=2)],
-        csel={"x"}, cfields={"", "+", "!", "$x", "x"}, cn=2, terms_c={"\r\n"}, hdrs_c=[[]])
+        csel={"x"}, cfields={"", "+", "!", "$x", "x"}, cn=2, terms_c={"\r\n"}, hdrs_c=[[]],
+        long=["GET /@ HTTP/1.0", "@\t+"], pads=[66000], terms_l={"\r\n"}, hdrs_l=[[]])
     return {"main": main, "orders": orders}
 
 
@@ -243,6 +261,10 @@ def consts_module(c, shipped, waptop, raises, glued=None):
         "C_CN == %d" % c["cn"],
         "C_TermsC == " + tla(set(c["terms_c"])),
         "C_HdrsC == {" + ", ".join(tla(h) for h in c["hdrs_c"]) + "}",
+        "C_LongLines == " + tla(set(c["long"])),
+        "C_Pads == {" + ", ".join(str(k) for k in sorted(c["pads"])) + "}",
+        "C_TermsL == " + tla(set(c["terms_l"])),
+        "C_HdrsL == {" + ", ".join(tla(h) for h in c["hdrs_l"]) + "}",
         "=============================================================================", ""]
     return "\n".join(body), listed
 
@@ -324,9 +346,10 @@ def run_batch(job):
     out = []
     conc = []
     for c in cases:
-        lb = concretise_line(c["line"], rep)
-        if abstract_line(lb) != c["line"]:
-            raise core.MachineryError("gamma/alpha round trip failed for %r -> %r" % (c["line"], lb))
+        pad = c.get("pad", 0)
+        lb = concretise_line(c["line"], rep, pad)
+        if abstract_line(lb) != (c["line"], pad):
+            raise core.MachineryError("gamma/alpha round trip failed for %r pad=%d -> %r" % (c["line"], pad, lb[:200]))
         hb, hids = concretise_hdrs(c, rep)
         conc.append((lb, hb))
         got, exc, pos = _detect(exprs["lists"][0], lb, hb, c["tls"])
@@ -341,12 +364,21 @@ def run_batch(job):
             g, x, _ = _detect(e, lb, hb, c["tls"])
             orders.append(_abs_got(g))
             oexc.append(x)
-        out.append({"init": {"kind": "conn", "line": c["line"], "tls": c["tls"], "hdrs": list(c["hdrs"])},
+        data = lb + b"".join(hb)
+        sgot, sexc = _serve(exprs["lists"][0], data, c["tls"])
+        salone = []
+        if pad:
+            for e in exprs["listed"]:
+                g, _x = _serve("[%s]" % e, data, c["tls"])
+                salone.append("crash" if g == "crash" else ("no" if g == "None" else "yes"))
+        out.append({"init": {"kind": "conn", "line": c["line"], "pad": pad, "tls": c["tls"], "hdrs": list(c["hdrs"])},
                     "events": [{"ev": "detect", "got": _abs_got(got), "again": None, "pos": pos},
                                {"ev": "alone", "r": alone},
-                               {"ev": "orders", "got": orders}],
-                    "x": {"exc": exc, "raw_got": got, "alone_exc": aexc, "orders_exc": oexc,
-                          "bytes": (lb + b"".join(hb)).decode("latin-1"), "rep": rep, "spellings": hids}})
+                               {"ev": "orders", "got": orders},
+                               {"ev": "served", "got": _abs_got(sgot), "alone": salone}],
+                    "x": {"exc": exc, "raw_got": got, "alone_exc": aexc, "orders_exc": oexc, "served_raw": sgot, "served_exc": sexc,
+                          "bytes": data[:160].decode("latin-1") + ("...(%d bytes)" % len(data) if len(data) > 160 else ""),
+                          "rep": rep, "spellings": hids}})
     for i in range(len(cases) - 1, -1, -1):            # later in the process' life, in the opposite order
         lb, hb = conc[i]
         g, _x, _ = _detect(exprs["lists"][0], lb, hb, cases[i]["tls"])
@@ -355,7 +387,34 @@ def run_batch(job):
 
 
 def _init_worker():
-    _world()
+    """Each worker serves from its own (empty) document root: the directory handler writes a cache file there."""
+    global _W
+    from harness import world
+    if _ROOT:
+        root = os.path.join(_ROOT, "w%d" % os.getpid())
+        os.makedirs(root, exist_ok=True)
+        _W = world.World(root=root)
+    else:
+        _world()
+
+
+_LOGCLS = re.compile(r"\[(\w+)/\w+\]")
+
+
+def _serve(expr, data, tls):
+    """The same bytes through the REAL connection handler (server.py GopherRequestHandler.handle reads the request
+    line itself).  alpha: the answering class is taken from the server log ('addr [Class/Handler]: selector' or
+    'addr [Class/None] EXCEPTION ...'); an exception that escapes the handler is 'crash'."""
+    w = _world()
+    w.config.set("protocols.ProtocolMultiplexer", "protocols", expr)
+    r = w.request(data, tls=tls)
+    if r.escaped is not None:
+        return "crash", r.escaped
+    for l in r.log:
+        m = _LOGCLS.search(l)
+        if m:
+            return m.group(1), None
+    return "None", None
 
 
 # ---------------------------------------------------------------------------------------------
@@ -492,7 +551,8 @@ def _case_key(t):
     i = t["init"]
     if i["kind"] == "sniff":
         return "sniff ctx=%s sent=%s" % (i["ctx"], bytes(i["sent"]).hex())
-    return "line=%s tls=%s hdrs=%s rep=%d" % (json.dumps(i["line"]), i["tls"], ",".join(i["hdrs"]) or "-", t["x"]["rep"])
+    return "line=%s%s tls=%s hdrs=%s rep=%d" % (json.dumps(i["line"]), " pad=%d" % i["pad"] if i.get("pad") else "", i["tls"],
+                                               ",".join(i["hdrs"]) or "-", t["x"]["rep"])
 
 
 def _classify_input(line):
@@ -510,11 +570,12 @@ def report(chk, traces, tv, cfgname, tier, lists):
         detail = {"events": t["events"], "rejected_at_event": rj["at"], "observed": t["x"]}
         if t["init"]["kind"] == "conn":
             case.update(_classify_input(t["init"]["line"]))
-            xs = [t["x"]["exc"]] + [e for e in t["x"]["alone_exc"] if e] + [e for e in t["x"]["orders_exc"] if e]
+            xs = [t["x"]["exc"]] + [e for e in t["x"]["alone_exc"] if e] + [e for e in t["x"]["orders_exc"] if e] + [t["x"].get("served_exc")]
             case["exc"] = next((e for e in xs if e), None)
             case["config"], case["tier"], case["hseed"] = cfgname, tier, HSEED
             case["glued_wml_first_accept"] = "AG" in t["init"]["hdrs"]
             case["got"] = t["events"][0]["got"]
+            case["served"] = t["events"][3]["got"] if len(t["events"]) > 3 else None
             detail["lists"] = lists if len(lists) <= 12 else "%d lists of configuration %s/%s" % (len(lists), tier, cfgname)
         chk.violation(key, rj["clause"], case, detail)
     chk.note_drift([dict(d, key=_case_key(traces[d["index"]])) for d in tv["drift"]])
@@ -537,11 +598,11 @@ def lines_run(chk, name, c, shipped, conf_exprs, waptop, raises, tier, reps, onl
         for st in iter_dump_states(res["dump"], wanted={"x", "phase", "fam"}):
             if st["phase"] == "in":
                 x = st["x"]
-                cases.append({"line": x["line"], "tls": bool(x["tls"]), "hdrs": list(x["hdrs"])})
+                cases.append({"line": x["line"], "pad": int(x["pad"]), "tls": bool(x["tls"]), "hdrs": list(x["hdrs"])})
                 fams[st["fam"]] = fams.get(st["fam"], 0) + 1
     finally:
         tlc.cleanup(res)
-    cases.sort(key=lambda k: (k["line"], k["tls"], k["hdrs"]))
+    cases.sort(key=lambda k: (k["line"], k["pad"], k["tls"], k["hdrs"]))
     if only_case is not None:
         cases = [only_case]
     t1 = time.time()
@@ -553,7 +614,7 @@ def lines_run(chk, name, c, shipped, conf_exprs, waptop, raises, tier, reps, onl
     if missing:
         raise core.MachineryError("C02: protocol classes not found in pygopherd.protocols: %s" % missing)
     exprs = {"lists": ["[%s]" % ", ".join(exprmap[p] for p in l) for l in c["lists"]], "listed": [exprmap[p] for p in listed]}
-    st = dict(spellings={}, aw_detected=set(), answered={}, contested=set(), slurped=0, traces=0, accepted=0, rejected=0, trace_states=0, samples=[],
+    st = dict(calls=0, served={}, long_served={}, spellings={}, aw_detected=set(), answered={}, contested=set(), slurped=0, traces=0, accepted=0, rejected=0, trace_states=0, samples=[],
               tv_cmd="", replay_s=0.0, validation_s=0.0)
     B = 400
     for o in range(0, len(cases), SLICE):
@@ -574,8 +635,14 @@ def lines_run(chk, name, c, shipped, conf_exprs, waptop, raises, tier, reps, onl
         for t in traces:
             g = t["events"][0]["got"]
             st["answered"][g] = st["answered"].get(g, 0) + 1
+            st["calls"] += 2 + len(t["events"][1]["r"]) + len(t["events"][2]["got"]) - 1 + 1 + len(t["events"][3]["alone"])
+            sg = t["events"][3]["got"]
+            st["served"][sg] = st["served"].get(sg, 0) + 1
+            if t["init"]["pad"]:
+                k = "%s@%d" % (sg, t["init"]["pad"])
+                st["long_served"][k] = st["long_served"].get(k, 0) + 1
             if sum(1 for r in t["events"][1]["r"] if r == "yes") >= 2:
-                st["contested"].add((t["init"]["line"], t["init"]["tls"], tuple(t["init"]["hdrs"])))
+                st["contested"].add((t["init"]["line"], t["init"]["pad"], t["init"]["tls"], tuple(t["init"]["hdrs"])))
             if t["events"][0]["pos"] > 0:
                 st["slurped"] += 1
                 if g == "WAPProtocol":
@@ -649,7 +716,7 @@ def _main(chk, replay=None):
         if c.get("kind") == "sniff":
             only_sniff = {"ctx": c["ctx"], "sent": c["sent"]}
         elif c.get("kind") == "conn":
-            only_conn = {"line": c["line"], "tls": c["tls"], "hdrs": c["hdrs"]}
+            only_conn = {"line": c["line"], "pad": c.get("pad", 0), "tls": c["tls"], "hdrs": c["hdrs"]}
             reps = [c.get("rep") or 0]
             HSEED = c.get("hseed", chk.seed)
             tier = c.get("tier") or tier
@@ -689,6 +756,14 @@ def _main(chk, replay=None):
         undet = {w for w in want if w.startswith("AW")} - seen
         if undet:
             raise core.MachineryError("C02 vacuous: Accept spellings never decisive in a WAP auto-detection: %s" % sorted(undet))
+        longs = {}
+        for r in runs.values():
+            for k, n in r["st"]["long_served"].items():
+                longs[k] = longs.get(k, 0) + n
+        need = {"%s@%d" % (p, k) for p in ("HTTPProtocol", "SpartanProtocol", "GopherPlusProtocol", "WAPProtocol") if p in shipped
+                for k in cfgs["main"]["pads"]} if "main" in cfgs else set()
+        if need - set(longs):
+            raise core.MachineryError("C02 vacuous: long lines never answered through the connection handler by: %s" % sorted(need - set(longs))[:6])
         peeks = sum(1 for t in sn["traces"] for e in t["events"] if e["ev"] == "recv")
         wraps = sum(1 for t in sn["traces"] for e in t["events"] if e["ev"] == "wrapcall")
         if not peeks or not wraps:
@@ -705,15 +780,18 @@ def _main(chk, replay=None):
     cov = {
         "states": states, "transitions": gen, "exhaustive": True,
         "traces_validated_against_impl": accepted, "traces_rejected": rejected,
-        "evaluations": sum(r["st"]["traces"] * (2 + len(r["listed"]) + nl[n] - 1) for n, r in runs.items())
-        + (len(sn["traces"]) if sn else 0),
+        "evaluations": sum(r["st"]["calls"] for r in runs.values()) + (len(sn["traces"]) if sn else 0),
         "distinct_nontrivial": len(contested),
-        "rule": "evaluations = real getProtocol / wrap_socket calls; non-trivial = distinct abstract cases (line, TLS?, "
+        "rule": "evaluations = real getProtocol / GopherRequestHandler.handle / wrap_socket calls; non-trivial = distinct abstract cases (line, TLS?, "
                 "header block) that at least two listed protocol classes claimed when asked alone on a fresh connection "
                 "(so the configured order decides), counted from the recorded answers",
         "cases": {n: r["cases"] for n, r in runs.items()}, "families": {n: r["fams"] for n, r in runs.items()},
         "protocol_lists": nl, "representative_sets": reps,
         "answered_by": answered, "sniff_cases": sn["cases"] if sn else 0,
+        "served_by_connection_handler": {k: sum(r["st"]["served"].get(k, 0) for r in runs.values())
+                                         for k in sorted({k for r in runs.values() for k in r["st"]["served"]})},
+        "long_line_cases": sum(sum(r["st"]["long_served"].values()) for r in runs.values()),
+        "pad_lengths": {n: sorted(c["pads"]) for n, c in cfgs.items()},
         "samples": samples,
         "checker_cmd": " ; ".join([r["res"]["cmd"] for r in runs.values()] + [r["st"]["tv_cmd"] for r in list(runs.values())[:1]]
                                   + ([sn["res"]["cmd"]] if sn else [])),
@@ -724,9 +802,11 @@ def _main(chk, replay=None):
         "model_follows_code_reading_of_glued_accept": GLUED,
         "constants_bound": bound, "shipped": shipped, "waptop": waptop, "model_follows_unrepaired_gopherplus": raises,
         "bindings": ["B1 shipped order + waptop from conf/pygopherd.conf", "B2 every TLC-enumerated case replayed through the real "
-                     "getProtocol / wrap_socket", "B3 TraceC02"],
+                     "getProtocol, the real connection handler (GopherRequestHandler.handle) / wrap_socket", "B3 TraceC02"],
     }
     assumptions = [
+        "line length: one PAD run of filler letters inside the selector/path, lengths %s (main); the answering class of a run through the "
+        "connection handler is read from the server log ([Class/Handler] of the request or exception line)" % sorted(cfgs[next(iter(cfgs))]["pads"]),
         "TLS-ness of a connection is presented to getProtocol as the tests do: a request object that is an ssl.SSLSocket instance "
         "(no real handshake); the sniff is exercised separately on a real socketpair with a recording stand-in for the SSL context",
         "lines are enumerated over class characters (HI, NB, FS, letter, digit) with %d representative set(s) per case; the "
@@ -757,7 +837,7 @@ def selftest():
 def _selftest():
     shipped, conf_exprs, waptop, _ = read_conf()
     c = configs("quick", shipped)["main"]
-    consts_text, listed = consts_module(c, shipped, waptop, False, glued=True)
+    consts_text, listed = consts_module(c, shipped, waptop, False)
     _world()
     exprmap = class_exprs(conf_exprs)
     exprs = {"lists": ["[%s]" % ", ".join(exprmap[p] for p in l) for l in c["lists"]], "listed": [exprmap[p] for p in listed]}
@@ -769,6 +849,11 @@ def _selftest():
     v = json.loads(json.dumps(base)); v["events"][1]["r"][0] = "no"; variants["alone-corrupted"] = v
     v = json.loads(json.dumps(base)); del v["events"][1]; variants["event-dropped"] = v
     v = json.loads(json.dumps(base)); v["events"][0]["again"] = "GopherProtocol"; variants["again-corrupted"] = v
+    v = json.loads(json.dumps(base)); v["events"][3]["got"] = "HTTPProtocol"; variants["served-corrupted"] = v
+    lng = run_batch(([{"line": "GET /@ HTTP/1.0\r\n", "pad": 66000, "tls": False, "hdrs": []}], 0, exprs))[0]
+    variants["long-recorded"] = lng
+    v = json.loads(json.dumps(lng)); v["events"][3]["got"] = "GopherProtocol"; variants["long-served-as-if-truncated"] = v
+    v = json.loads(json.dumps(lng)); v["events"][3]["alone"][2] = "no"; variants["long-alone-corrupted"] = v
     v = json.loads(json.dumps(sn)); v["events"][-1]["readable"] = v["events"][-1]["readable"][1:]; variants["sniff-consumed"] = v
     v = json.loads(json.dumps(sn)); v["events"][-1]["wrapped"] = False; variants["sniff-unwrapped"] = v
     v = json.loads(json.dumps(sn)); del v["events"][-1]; variants["sniff-return-dropped"] = v
@@ -782,7 +867,7 @@ def _selftest():
     bad = {names[r["index"]]: r["clause"] for r in tv["rejected"]}
     for n in names:
         print("%-22s %s" % (n, bad.get(n, "accepted")))
-    ok = set(bad) == set(names) - {"recorded", "sniff-recorded"}
+    ok = set(bad) == set(names) - {"recorded", "sniff-recorded", "long-recorded"}
     print("selftest", "OK" if ok else "FAILED")
     return 0 if ok else 1
 
